@@ -843,44 +843,51 @@ func Run16Bytes(input []byte) (Info16, *vstat.Violation) {
 			form = "cap>len"
 		}
 		for _, d := range decoders16 {
-			var o out16
-			if v := guard16(d, in, &o); v != nil {
-				v.Msg = fmt.Sprintf("%s(%s) [%s] %s", d.name, short(input), form, v.Msg)
+			if _, v := check16(d, in, form); v != nil {
 				return info, v
-			}
-			where := lazy(func() string { return fmt.Sprintf("%s(%s) [%s]", d.name, short(input), form) })
-			if o.err != nil {
-				if o.n != 0 {
-					return info, vstat.V("xbin:error-with-consumed:"+d.name, "%s: failed (%v) but reports %d bytes consumed", where, o.err, o.n)
-				}
-				continue
-			}
-			if o.n <= 0 || o.n > len(in) {
-				return info, vstat.V("xbin:consumed-out-of-range:"+d.name, "%s: succeeded with n=%d for an input of %d bytes", where, o.n, len(in))
-			}
-			if !o.has || len(o.data) == 0 {
-				continue
-			}
-			if len(o.data) > len(in) {
-				return info, vstat.V("xbin:result-outside-input:"+d.name, "%s: returned %d bytes from an input of %d", where, len(o.data), len(in))
-			}
-			p := uintptr(unsafe.Pointer(unsafe.SliceData(o.data)))
-			base := uintptr(unsafe.Pointer(unsafe.SliceData(in)))
-			if !d.newBuf {
-				if p < base || p-base > uintptr(len(in)-len(o.data)) {
-					return info, vstat.V("xbin:result-outside-input:"+d.name, "%s: the returned %d bytes are not a sub-range of in[0:%d]", where, len(o.data), len(in))
-				}
-				continue
-			}
-			if !bytes.Contains(in, o.data) {
-				return info, vstat.V("xbin:copy-not-from-input:"+d.name, "%s: the returned bytes %s are not a copy of any range of the input", where, short(o.data))
-			}
-			if inside(p, len(o.data), in) {
-				return info, vstat.V("xbin:newbuf-aliases-input:"+d.name, "%s: the result of newBuf=true lies inside the input buffer", where)
 			}
 		}
 	}
 	return info, nil
+}
+
+// check16 calls one decoder on in and applies the oracle of C16 to what it returns.
+func check16(d decoder16, in []byte, form string) (o out16, v *vstat.Violation) {
+	if v := guard16(d, in, &o); v != nil {
+		v.Msg = fmt.Sprintf("%s(%s) [%s] %s", d.name, short(in), form, v.Msg)
+		return o, v
+	}
+	where := lazy(func() string { return fmt.Sprintf("%s(%s) [%s]", d.name, short(in), form) })
+	if o.err != nil {
+		if o.n != 0 {
+			return o, vstat.V("xbin:error-with-consumed:"+d.name, "%s: failed (%v) but reports %d bytes consumed", where, o.err, o.n)
+		}
+		return o, nil
+	}
+	if o.n <= 0 || o.n > len(in) {
+		return o, vstat.V("xbin:consumed-out-of-range:"+d.name, "%s: succeeded with n=%d for an input of %d bytes", where, o.n, len(in))
+	}
+	if !o.has || len(o.data) == 0 {
+		return o, nil
+	}
+	if len(o.data) > len(in) {
+		return o, vstat.V("xbin:result-outside-input:"+d.name, "%s: returned %d bytes from an input of %d", where, len(o.data), len(in))
+	}
+	p := uintptr(unsafe.Pointer(unsafe.SliceData(o.data)))
+	base := uintptr(unsafe.Pointer(unsafe.SliceData(in)))
+	if !d.newBuf {
+		if p < base || p-base > uintptr(len(in)-len(o.data)) {
+			return o, vstat.V("xbin:result-outside-input:"+d.name, "%s: the returned %d bytes are not a sub-range of in[0:%d]", where, len(o.data), len(in))
+		}
+		return o, nil
+	}
+	if !bytes.Contains(in, o.data) {
+		return o, vstat.V("xbin:copy-not-from-input:"+d.name, "%s: the returned bytes %s are not a copy of any range of the input", where, short(o.data))
+	}
+	if inside(p, len(o.data), in) {
+		return o, vstat.V("xbin:newbuf-aliases-input:"+d.name, "%s: the result of newBuf=true lies inside the input buffer", where)
+	}
+	return o, nil
 }
 
 // PutUvarint is the harness's own writer of a 7-bit-group little-endian number with `pad` extra
